@@ -261,6 +261,39 @@ theorem import_errors (cd : Codecs) (lenient : String → String) (mode path : S
   · intro bytes h; simp [importOp, h]
   · intro bytes v h hp; simp [importOp, h, hp]
 
+/-- TemplateOp and ImportOp change only their target: a key-only path that diverges from the
+    (key-only) target resolves to the same node afterwards, whatever the outcome. -/
+theorem template_frame_partial (render : String → Option String) (lenient trimFn : String → String)
+    (yp : String → Option (Option YNode)) (t : TemplateSpec) (data : AMap Node) (q : String)
+    (h : PathOk (lenient t.path)) (hq : PathOk q)
+    (h1 : ¬ splitPath (lenient t.path) <+: splitPath q) (h2 : ¬ splitPath q <+: splitPath (lenient t.path)) :
+    lookup (templateOp render lenient trimFn yp t data).1 q = lookup data q := by
+  simp only [templateOp]
+  split
+  · rfl
+  · split
+    · rfl
+    · split
+      · split
+        · rfl
+        · exact lookup_addValueAt_frame _ _ h hq h1 h2
+      · split
+        · exact lookup_addValueAt_frame _ _ h hq h1 h2
+        · rfl
+
+theorem import_frame_partial (cd : Codecs) (lenient : String → String) (content : Option (List Nat))
+    (mode path : String) (data : AMap Node) (q : String)
+    (h : PathOk (lenient path)) (hq : PathOk q)
+    (h1 : ¬ splitPath (lenient path) <+: splitPath q) (h2 : ¬ splitPath q <+: splitPath (lenient path)) :
+    lookup (importOp cd lenient content mode path data).1 q = lookup data q := by
+  simp only [importOp]
+  split
+  · rfl
+  · split
+    · rfl
+    · simp only [if_pos h.1]
+      exact lookup_addValueAt_frame _ _ h hq h1 h2
+
 /-! ## EnvOp -/
 
 /-- env stores exactly the variables matching include and not exclude under `<path>.Env`:
@@ -405,6 +438,13 @@ theorem indexOf2_none_iff (a b : Char) : ∀ l : List Char,
         · exact Or.inr
       rw [key, ← ih]
       split <;> simp_all
+
+/-- the guard: a `{{` and, somewhere after it, a `}}` (the `closeIdx > 0` test of the code is
+    the same as `closeIdx != -1`, because the text searched starts with `{{`) -/
+theorem lenient_guard_iff (s : String) :
+    possiblyTemplate s = true ↔
+      ∃ i, indexOf2 '{' '{' s.toList = some i ∧ (indexOf2 '}' '}' (s.toList.drop i)).isSome = true :=
+  possiblyTemplate_iff s
 
 /-- a string whose rendering fails is returned unchanged -/
 theorem lenient_failing (r : String → Option String) (s : String) (h : r s = none) :
